@@ -19,8 +19,6 @@ NOT_DECIDED = [
 
 
 def run(ctx):
-    from ..rules import generic as _G11
-    _G11.rule_F11(ctx, ['partitura.score'], 'C01')
     tl.rule_F2a(ctx)
     tl.rule_F2b(ctx)
     tl.rule_F2c_F2d(ctx)
